@@ -50,6 +50,12 @@ def cases(ctx: Ctx):
     # a user variable defined twice in the header, with a dependent in between: the redefinition replaces the value IN PLACE
     (d / "k3.krome").write_text("@var:kbase=1.0d-9\n@var:kscaled=2.0d0*kbase\n@var:kbase=3.0d-9\n@format:idx,R,R,P,P,rate\n1,H,H,H2,,kscaled*sqrTgas\n"
                                 "@var:kother=kscaled*kbase\n@format:idx,R,P,P,rate\n2,H2,H,H,kother\n")
+    # two @common lines before the first reaction; the rates use a parameter of each
+    (d / "k4.krome").write_text("@common:user_crflux,user_Av\n@common:user_dust2gas\n@format:idx,R,P,P,rate\n1,H2,H,H,1.0d-17*user_crflux*exp(-1.0d0*user_Av)\n"
+                                "2,H,H,,3.0d-17*user_dust2gas\n")
+    # species whose index macros are long: a three-reactant term is one blank-free token wider than the line
+    longr = [rec(["CH3CH2CH2CH2OH", "CH3CH2CH2CH2OH2+", "HCOOCH2CH2CH3"], ["CH3CH2CH2CH2O", "H2"], 100), rec(["CH3CH2CH2CH2O", "H"], ["CH3CH2CH2CH2OH"], 100, idx=2)]
+    (d / "long.naunet").write_text("\n".join(encoders.native(x) for x in longr) + "\n")
     gl = [rec(["H", "H"], ["H2"], 1, a=6.59e-11), rec(["GRAIN0", "e-"], ["GRAIN-"], 20, a=1.0), rec(["C+", "GRAIN-"], ["C", "GRAIN0"], 6, a=1.0),
           rec(["CO"], ["GCO"], 7, a=1.0), rec(["GCO"], ["CO"], 8, a=1.0)]
     (d / "grain.leeds").write_text("\n".join(encoders.leeds(dict(x, tmin=5.0, tmax=41000.0)) for x in gl) + "\n")
@@ -73,6 +79,8 @@ def cases(ctx: Ctx):
         ("leeds grains+hh93", dict(filelist=str(d / "grain.leeds"), fileformats="leeds", grain_model="hh93"), "cvode", "dense"),
         ("krome redefined variable", dict(filelist=str(d / "k3.krome"), fileformats="krome"), "cvode", "sparse"),
         ("uclchem without H2", dict(filelist=str(data / "minimal.ucl"), fileformats="uclchem"), "cvode", "dense"),
+        ("krome two @common lines", dict(filelist=str(d / "k4.krome"), fileformats="krome"), "odeint", "rosenbrock4"),
+        ("long identifiers", dict(filelist=str(d / "long.naunet"), fileformats="naunet"), "cvode", "sparse"),
         ("uclchem H2 late", dict(filelist=str(d / "h2late.ucl"), fileformats="uclchem"), "cvode", "sparse"),
     ]
     if not ctx.quick:
